@@ -129,9 +129,12 @@ func (db *DB) DeleteChannels(chs []ChannelKey) (err error) {
 	// Do a pass first to remove all non-index channels
 	for _, ch := range chs {
 		udb, uok := db.mu.dbs.unary[ch]
+		_, vok := db.mu.dbs.virtual[ch]
 
-		if !uok || udb.Channel().IsIndex {
-			if udb.Channel().IsIndex {
+		// Channels that do not exist are skipped; virtual channels are removed in this
+		// pass along with the non-index unary channels.
+		if (!uok && !vok) || (uok && udb.Channel().IsIndex) {
+			if uok {
 				indexChannels = append(indexChannels, ch)
 			}
 			continue
